@@ -12,7 +12,8 @@ from vlib.api import H, cover
 from vlib.lift import b, t
 
 from twisted.python.compat import nativeString as _real_native
-from twisted.web._stan import Comment, Tag, slot
+from twisted.web import _flatten as _real_flatten
+from twisted.web._stan import CDATA, Comment, Tag, slot
 
 PROPERTY = "C28"
 LEVEL = "model_checking"
@@ -22,10 +23,15 @@ ENCODED = ["twisted.web._flatten:escapeForContent", "twisted.web._flatten:attrib
            "twisted.web._flatten:_flattenTree", "twisted.web._flatten:flatten"]
 BOUNDS = {"quick": {"n": 4, "nc": 6, "m": 3}, "thorough": {"n": 6, "nc": 8, "m": 4}}
 B = {}
-BOUNDS_TEXT = ("leaf functions: content of <= n characters (CDATA: <= nc), given as str (code points < 128) and as bytes (all 256 "
+BOUNDS_TEXT = ("flatten() of a single text child / attribute value (<= n-1 chars), Comment (<= n) and CDATA (<= nc) "
+               "with the module constant BUFFER_SIZE set to 1, 2 and 3; leaf functions: content of <= n characters (CDATA: <= nc), given as str (code points < 128) and as bytes (all 256 "
                "values); trees <p b=Y>{slot X}</p> and <div><!--X--><a href={<i>Y</i>}></a></div> with "
                "len(X) + len(Y) <= m")
-OUTSIDE = ["non-ASCII str content: its utf-8 encoding is done by C code (multi-byte utf-8 sequences contain no "
+OUTSIDE = ["the real BUFFER_SIZE of 65536: per-buffer processing in the flattener (flushing, and any escaping or "
+           "writing of a leaf in BUFFER_SIZE slices) is exercised with the constant scaled to 1, 2, 3 (harness "
+           "`sliced`: every slice offset of a short leaf, both sides of each boundary) and 0 (tree harnesses: one "
+           "delivery per write); leaves longer than 64 KiB with the unscaled constant are not run",
+           "non-ASCII str content: its utf-8 encoding is done by C code (multi-byte utf-8 sequences contain no "
            "ASCII byte, so they cannot form a metacharacter; not re-checked here)",
            "XML well-formedness beyond tokenization: '--' inside a comment, characters XML forbids (controls, "
            "U+0000), attribute-value whitespace normalisation by XML parsers",
@@ -36,7 +42,10 @@ OUTSIDE = ["non-ASCII str content: its utf-8 encoding is done by C code (multi-b
            "html5lib / XML library oracles (the reference tokenizer here is hand-written from the specs)",
            "Deferreds, coroutines, renderers and element trees other than the two shapes; tag and attribute names "
            "are fixed valid names"]
-ASSUMPTIONS = ["LBytes reproduces bytes semantics for replace/startswith/slicing/join (vlib.lbytes.selftest) and the "
+ASSUMPTIONS = ["the flattener's behaviour depends on BUFFER_SIZE only through comparisons and slicing with that "
+               "constant, so scaling it to 1..3 exposes the same code at small sizes (replay sets the same value "
+               "on the real module)",
+               "LBytes reproduces bytes semantics for replace/startswith/slicing/join (vlib.lbytes.selftest) and the "
                "lifted module agrees with the real one on the vectors below (results and observations compared)"]
 EXPLANATION = ("lifted real escaping functions and flatten() on symbolic content; output re-tokenized by a "
                "reference HTML5/XML tokenizer and compared with the input")
@@ -540,12 +549,20 @@ if not L.__real__:
     L.__ns__["BUFFER_SIZE"] = 0
 
 
-def _flat(root):
-    """flatten(root) -> list of text pieces in output order (None on error)"""
+def _flat(root, bufsize=None):
+    """flatten(root) -> list of text pieces in output order (None on error).  bufsize: value of the
+    module constant BUFFER_SIZE for this call (lifted namespace, or the real module in replay)"""
+    ns = _real_flatten.__dict__ if L.__real__ else L.__ns__
+    saved = ns["BUFFER_SIZE"]
+    if bufsize is not None:
+        ns["BUFFER_SIZE"] = bufsize
     pieces = []
     res = []
-    d = L.flatten(None, root, lambda bs: pieces.append(t(bs)))
-    d.addCallbacks(lambda r: res.append(True), lambda f: res.append(False))
+    try:
+        d = L.flatten(None, root, lambda bs: pieces.append(t(bs)))
+        d.addCallbacks(lambda r: res.append(True), lambda f: res.append(False))
+    finally:
+        ns["BUFFER_SIZE"] = saved
     if res != [True]:
         return None
     return pieces
@@ -602,6 +619,62 @@ _C5 = ["%s == '&'", "%s == '<'", "%s == '>'", "%s in '\"-!]'", "%s not in _SPECI
 _C2 = ["%s in _SPECIAL", "%s not in _SPECIAL"]
 
 
+def sliced(kind: int, x: str, bs: int) -> bool:
+    """
+    pre: 0 <= kind <= 3 and 1 <= bs <= 3
+    pre: len(x) <= (B['nc'] if kind == 3 else B['n'] if kind == 2 else B['n'] - 1)
+    pre: all(ord(c) < 128 for c in x)
+    post: _
+    """
+    # BUFFER_SIZE (65536 in the real module) scaled to 1, 2, 3: anything the flattener does per
+    # buffer-sized slice (escaping or writing a leaf in pieces, flushing) then happens at every
+    # offset of a short leaf; a metacharacter sequence split over two slices must still be escaped
+    for k in (1, 2, 3):
+        if bs == k:
+            bs = k
+            break
+    if kind == 0:
+        root = Tag("p", children=[x])
+    elif kind == 1:
+        root = Tag("a", attributes={"b": x})
+    elif kind == 2:
+        root = Comment(x)
+    else:
+        root = CDATA(x)
+    doc = _flat(root, bs)
+    api.obs(None if doc is None else "".join(doc))
+    cover()
+    if doc is None:
+        return False
+    if kind == 3:
+        got = xml_cdata_text(doc)
+        return got is not None and got == x
+    toks = html_tokens(doc)
+    if kind == 0:
+        return toks == [("start", "p", [], False)] + ([("text", x)] if len(x) > 0 else []) + [("end", "p")]
+    if kind == 1:
+        return toks == [("start", "a", [("b", x)], False), ("end", "a")]
+    if len(toks) != 1 or toks[0][0] != "comment":
+        return False
+    esc = toks[0][1]
+    if len(esc) > 0 and esc[len(esc) - 1] == "-":
+        return False
+    return (esc + "-->").find("-->") == len(esc)
+
+
+def _sliced_shards(tier):
+    out = []
+    for kind in range(4):
+        n = BOUNDS[tier]["nc"] if kind == 3 else BOUNDS[tier]["n"] - (0 if kind == 2 else 1)
+        for bs in (1, 2, 3):
+            if kind == 3 or tier != "quick":
+                out.append(("kind == %d" % kind, "bs == %d" % bs, "len(x) <= %d" % (n - 1)))
+                out.append(("kind == %d" % kind, "bs == %d" % bs, "len(x) == %d" % n))
+            else:
+                out.append(("kind == %d" % kind, "bs == %d" % bs))
+    return out
+
+
 def _leaf_shards(split, key="n"):
     def shards(tier):
         n = BOUNDS[tier][key]
@@ -635,6 +708,7 @@ HARNESSES = [
     H(cdata, shards=_leaf_shards(False, "nc"), timeout={"quick": 120, "thorough": 1500}),
     H(tree_p, shards=_tree_shards, timeout={"quick": 120, "thorough": 1500}),
     H(tree_div, shards=_tree_shards, timeout={"quick": 120, "thorough": 1500}),
+    H(sliced, shards=_sliced_shards, timeout={"quick": 120, "thorough": 1500}),
 ]
 
 _HOSTILE = ["", "a", "&", "<", ">", '"', "'", "&amp;", "&lt;b", "</p>", "<!--", "-->", "--!>", ">", "->", "-", "--",
@@ -645,6 +719,8 @@ VECTORS = {
     "comment": [(s, ab) for s in _HOSTILE for ab in (False, True)],
     "cdata": [(s, ab) for s in _HOSTILE for ab in (False, True)],
     "tree_p": [("a<b", "c\"d"), ("", ""), ("&", "&"), ("</p>", "\"><s")],
+    "sliced": [(k, x, bs) for k in range(4) for bs in (1, 2, 3)
+               for x in ("", "a]]>b", "]]>", "-->", "--!>", "a&<\"", ">")],
     "tree_div": [("a", "b"), ("-->", "<"), (">", "\""), ("--!>", "&lt;"), ("", "")],
 }
 
